@@ -38,6 +38,7 @@ func (sc *c10Scenario) Run(o env.Opts, plan sim.FaultPlan, warm bool) (*env.Env,
 // RunTimed additionally installs a hook that runs at the start of every storage call (delays).
 func (sc *c10Scenario) RunTimed(o env.Opts, plan sim.FaultPlan, before func(ctx context.Context, tag, op string, occ int), warm bool) (*env.Env, *env.Call) {
 	e, send := sc.run(o)
+	e.Cancellable = true
 	if warm {
 		send()
 	}
@@ -329,8 +330,29 @@ func c10Single(scs []c10Scenario, pairs, warm bool) func(r *core.Run, idx int, r
 					// the same fault with other relative timing: where a handler issues storage calls side by side, which
 					// result arrives first must not matter (the failing call is slow / every other call is slow); user
 					// lookups additionally fail after having delivered part of the record
-					for _, timing := range []string{"failing_call_slow", "other_calls_slow", "partial_record"} {
+					for _, timing := range []string{"failing_call_slow", "other_calls_slow", "partial_record", "client_gone"} {
 						kind := k
+						if timing == "client_gone" {
+							// the failure is the client going away at this very call: the request's context is cancelled, this
+							// call and every later one return the context's error (explored once per call, not per kind)
+							if k != sim.FaultError {
+								continue
+							}
+							gone := false
+							_, callG := sc.RunTimed(sc.Opts, nil, func(ctx context.Context, _, op string, occ int) {
+								if op == p.Op && occ == p.Occ {
+									gone = env.CancelRequest(ctx)
+								}
+							}, warm)
+							if !gone {
+								r.Count("fault_not_reached", 1)
+								continue
+							}
+							r.Eval(wl + "|" + sc.Name + "|" + p.Op + fmt.Sprint(p.Occ) + "|client_gone")
+							r.Count("requests_whose_client_went_away_at_a_storage_call", 1)
+							c10Judge(r, wl, idx, sc.Name+"|"+p.Op+"|client_gone", sc, callG, []faultPos{{p.Op, p.Occ, sim.FaultCtx}})
+							continue
+						}
 						if timing == "partial_record" {
 							if !strings.HasPrefix(p.Op, "SetUserinfo") {
 								continue
